@@ -205,6 +205,27 @@ pub fn lattice_orient(cx: &mut Ctx, case: &Value) {
             }
         }
     }
+    // dot_product_sign on vectors whose products cancel to the last bit: u = (1 + a 2^-52, 1), v = (1 - b 2^-53, -1), a, b small:
+    // u . v = (2 a - b) 2^-53 - a b 2^-105, so its sign is that of the integer (2 a - b) 2^52 - a b (exact in i128)
+    static DOT_DONE: std::sync::atomic::AtomicBool = std::sync::atomic::AtomicBool::new(false);
+    if !DOT_DONE.swap(true, std::sync::atomic::Ordering::SeqCst) {
+        for a_ in 0..6i128 {
+            for b_ in 0..12i128 {
+                let exact = (2 * a_ - b_) * (1i128 << 52) - a_ * b_;
+                let want = if exact > 0 { 1 } else if exact < 0 { -1 } else { 0 };
+                let u = Coord { x: 1.0 + a_ as f64 * 2f64.powi(-52), y: 1.0 };
+                let v = Coord { x: 1.0 - b_ as f64 * 2f64.powi(-53), y: -1.0 };
+                for (s, what) in [(1.0f64, "as is"), (2f64.powi(30), "scaled by 2^30"), (2f64.powi(-200), "scaled by 2^-200")] {
+                    let (us, vs) = (Coord { x: u.x * s, y: u.y * s }, Coord { x: v.x * s, y: v.y * s });
+                    let got = [sign_of(RobustKernel::dot_product_sign(us, vs)), sign_of(RobustKernel::dot_product_sign(vs, us)),
+                               -sign_of(RobustKernel::dot_product_sign(us, Coord { x: -vs.x, y: -vs.y }))];
+                    if got == [want; 3] { cx.ok("dot_product_sign_cancelling"); } else {
+                        cx.bad("C03", "dot_product_sign_cancelling", case, json!({"what": format!("u = (1 + {a_} 2^-52, 1), v = (1 - {b_} 2^-53, -1) {what}: (u, v) (v, u) -(u, -v)"), "got": got, "want": want}));
+                    }
+                }
+            }
+        }
+    }
     // the two other kernel helpers: sign of a dot product (robust) and the squared distance
     {
         let want = case["dots"].as_i64().unwrap();
